@@ -158,7 +158,7 @@ CLAIMED = {
              "257/258 phase functions reached). The model is the reference for the search: a concrete input on which the "
              "real parser differs from it is reported as the failing input. Only table facts are proved; no simulation "
              "against an independent transcription of the standard exists yet, and the recorded deviations of the pinned "
-             "tree from the standard (no template, older special set, ...) are findings, not checked by theorem.",
+             "tree from the standard (no template, older special set, ...) are findings, not checked by theorem. Proved as well (C01b, 36 theorems): for every document tree t of the conforming grammar G1 (= G0 of C07 minus template/rb/rtc) and EVERY token sequence for t (text cut into arbitrary non-empty pieces), the independent WHATWG Spec.TreeConstruction and html5lib's tree-construction model both build exactly t (the model with no parse error) — C01_spec_builds_G1, C01_model_builds_G0, C01_model_eq_spec_on_G1: the property's statement proved for this language of inputs; the rb/rtc exception is the recorded finding (kernel counter-example cex_rb).",
         note="model = pinned behaviour; tied by correspondence; WHATWG clause relative to recorded deviations.",
         technique="Lean 4 executable model validated by differential correspondence (translation validation)",
         design="6/C01"),
